@@ -434,9 +434,9 @@ PROPS = {
         "level": "exploration",
         "shards": 16,
         "timeout": 900,
-        "thorough_scale": 8,
         "thorough_timeout": 3000,
         "race_thorough": True,
+        "thorough_scale": 3,
         "gomaxprocs": [16, 4, 1, 16, 2, 16, 8, 1],
         "rule": "C16/interleave: scripts of 2-25 actions against an in-process UCI driver whose engine searches through a harness "
                 "search.Search that holds every analysis before each iteration >= 2 (depth 1 is never held, because Halt waits for "
